@@ -169,8 +169,21 @@ func shippedLayoutFiles() ([]layoutFile, error) {
 	if err := add("apparmor.d/profiles-*-*", "profile"); err != nil {
 		return nil, err
 	}
-	for _, d := range []string{"apparmor.d/abstractions", "apparmor.d/abstractions/app", "apparmor.d/abstractions/attached",
-		"apparmor.d/abstractions/bus", "apparmor.d/abstractions/common"} {
+	// all abstractions: every directory below abstractions/ except the '<name>.d' drop-in
+	// directories (those extend upstream abstractions, their files are not abstractions)
+	var absDirs []string
+	filepath.Walk(filepath.Join(root, "apparmor.d/abstractions"), func(p string, info os.FileInfo, err error) error {
+		if err != nil || !info.IsDir() {
+			return nil
+		}
+		if strings.HasSuffix(info.Name(), ".d") {
+			return filepath.SkipDir
+		}
+		rel, _ := filepath.Rel(root, p)
+		absDirs = append(absDirs, rel)
+		return nil
+	})
+	for _, d := range absDirs {
 		if err := add(d, "abstraction"); err != nil {
 			return nil, err
 		}
@@ -196,7 +209,7 @@ func duplicateBaseNames(files []layoutFile) []string {
 }
 
 func TestC19_Shipped(t *testing.T) {
-	ev := NewEv(t, "C19", "shipped", "every file under apparmor.d/groups/*/, apparmor.d/profiles-*-*/ and the abstraction directories covered by the project's lint, enumerated completely; oracle: independent scanner of the layout contract (abi 4.0, profile named after the file, attachment absent or @{exec_path} defined in the own preamble, local include for the profile and each sub-profile, abstraction includes its own .d directory, unique base names). Non-trivial: a profile file with an attachment or a sub-profile; distinct by path")
+	ev := NewEv(t, "C19", "shipped", "every file under apparmor.d/groups/*/, apparmor.d/profiles-*-*/ and every abstraction directory (all directories below abstractions/ but the '<name>.d' drop-in directories), enumerated completely; oracle: independent scanner of the layout contract (abi 4.0, profile named after the file, attachment absent or @{exec_path} defined in the own preamble, local include for the profile and each sub-profile, abstraction includes its own .d directory, unique base names). Non-trivial: a profile file with an attachment or a sub-profile; distinct by path")
 	ev.Exhaustive = true
 	files, err := shippedLayoutFiles()
 	if err != nil || len(files) < 100 {
